@@ -135,6 +135,21 @@ pub fn run(ctx: &mut Ctx) {
         ext_ok(&a)
     });
 
+
+    // the record-layer version of each fragment fed to the defragmenter: every value, in either position
+    sweep16!(ctx, "record.version.defragmenter", |v, rng| {
+        let m = gen::hs(&mut rng, gen::TINY).to_bytes();
+        let cut = rng.usize(1, m.len().max(2) - 1).min(m.len());
+        let (v1, v2) = if rng.bool() { (0x0303u16, v) } else { (v, 0x0301u16) };
+        let mut p = TlsRecordsParser::default();
+        let r1 = TlsRawRecord { hdr: TlsRecordHeader { record_type: TlsRecordType(0x16), version: TlsVersion(v1), len: cut as u16 }, data: &m[..cut] };
+        let first_incomplete = matches!(p.parse_record(r1), Err(Err::Incomplete(_)));
+        let r2 = TlsRawRecord { hdr: TlsRecordHeader { record_type: TlsRecordType(0x16), version: TlsVersion(v2), len: (m.len() - cut) as u16 }, data: &m[cut..] };
+        let want = parse_tls_message_handshake(&m).ok().map(|x| x.1);
+        let good = cut == m.len() || (first_incomplete && matches!(p.parse_record(r2), Ok((rem, msgs)) if rem.is_empty() && msgs.len() == 1 && Some(&msgs[0]) == want.as_ref()));
+        (good, m)
+    });
+
     // ------------------------------------------------ cipher ids
     sweep16!(ctx, "cipher.client_hello", |v, rng| {
         let mut ch = gen::client_hello(&mut rng, gen::TINY);
